@@ -20,7 +20,9 @@ RULE = (
     "encoder == Python encode(); decoded leaves == values (signed leaves sign-extended). evaluations = (message, value, "
     "direction) comparisons. Non-trivial: message with >= 2 leaves and one of the C code-path labels (32/16-bit word copy "
     "reach, unaligned start, batch-copy-eligible array, signed non-standard width, extensible, nested, alias); distinct by "
-    "(schema digest, message, value, build)."
+    "(schema digest, message, value, build). Part `stride`: the same oracle on a family built at the 64 KiB line of IN-MEMORY sizes: "
+    "an array of tiny messages whose C struct (padded by c.struct_packing_alignment 4/8) is 65536 bytes -1/+0/+1/+37, used as an "
+    "array element directly or through an alias, followed by a tail field."
 )
 ASSUMPTIONS = [
     "ref.py is the specification; gcc 12 / clang 14 on x86-64 little-endian",
@@ -28,7 +30,7 @@ ASSUMPTIONS = [
     "bool members hold 0/1, enum members hold declared values",
     "struct/function names follow the documented scheme (checked separately by C15)",
 ]
-REQUIRED_LABELS = ["batch_array", "signed_nonstd", "width_gt32", "unaligned_start", "ext_array", "ext_message", "array_of_message", "alias_use", "cfg:single_tu", "cfg:clang", "cfg:gcc-O3", "cfg:packed"]
+REQUIRED_LABELS = ["batch_array", "signed_nonstd", "width_gt32", "unaligned_start", "ext_array", "ext_message", "array_of_message", "alias_use", "cfg:single_tu", "cfg:clang", "cfg:gcc-O3", "cfg:packed", "element_struct_ge_64KiB"]
 NT_LABELS = {"width_gt8", "unaligned_start", "batch_array", "signed_nonstd", "ext_message", "ext_array", "nested_value", "alias_use", "array"}
 
 CONFIGS = [("gcc", "-O0"), ("gcc", "-O1"), ("gcc", "-O2"), ("gcc", "-O3"), ("clang", "-O2")]
@@ -56,6 +58,8 @@ def run_case(case: cases.SVCase, stats: Stats) -> None:
     stats.count(f"cfg:{cc}{opt}" if cc == "gcc" else "cfg:clang")
     if single:
         stats.count("cfg:single_tu")
+    if case.config.get("stride_bytes", 0) >= 65536:
+        stats.count("element_struct_ge_64KiB")
     with gen.Compiled(case.unit, case.style) as cu:
         try:
             cdir = cu.render_all("c")
@@ -125,4 +129,5 @@ def run_case(case: cases.SVCase, stats: Stats) -> None:
 
 PARTS = [
     HypPart("gen", strategy, run_case, {"quick": 480, "thorough": 9600}, describe=cases.describe),
+    HypPart("stride", lambda tier: cases.stride_cases(config=config_strategy()), run_case, {"quick": 16, "thorough": 320}, describe=cases.describe),
 ]
